@@ -773,3 +773,53 @@ if (a) {
     assert_eq!(node.end_pos().column(&node), 4);
   }
 }
+
+#[cfg(feature = "verif-hooks")]
+pub mod verif_hooks {
+  //! Observe what `Root::do_edit` hands to the re-parser: the `InputEdit` built by the real
+  //! `perform_edit` and the old tree after the edit description has been applied to it.
+  use super::*;
+  use crate::source::{perform_edit, verif_hooks::input_edit_fields};
+
+  /// pre-order `(kind id, start byte, end byte)` of a tree-sitter tree as it is (edited, not re-parsed)
+  pub fn dump_ts_tree(tree: &tree_sitter::Tree) -> Vec<(u16, u32, u32)> {
+    fn go(n: tree_sitter::Node, out: &mut Vec<(u16, u32, u32)>) {
+      out.push((n.kind_id(), n.start_byte(), n.end_byte()));
+      for i in 0..n.child_count() {
+        if let Some(c) = n.child(i) {
+          go(c, out);
+        }
+      }
+    }
+    let mut out = vec![];
+    go(tree.root_node(), &mut out);
+    out
+  }
+
+  pub struct EditTrace {
+    /// see `source::verif_hooks::input_edit_fields`
+    pub input_edit: [u32; 9],
+    /// the old tree after `perform_edit` (one `tree.edit`)
+    pub once: Vec<(u16, u32, u32)>,
+    /// the old tree after the same `tree.edit` has been applied a second time
+    pub twice: Vec<(u16, u32, u32)>,
+  }
+
+  /// On a copy of `root`: the real `perform_edit` (`accept_edit` + `tree.edit`), a dump of the
+  /// old tree, then `tree.edit` with the same description again and a second dump.
+  /// Returns the edited copy of the source as well.
+  pub fn trace_edit<D: Doc>(root: &Root<D>, edit: &Edit<D>) -> (D, EditTrace) {
+    let mut copy = root.clone();
+    let source = copy.doc.get_source_mut();
+    let input_edit = perform_edit(&mut copy.inner, source, edit);
+    let once = dump_ts_tree(&copy.inner);
+    copy.inner.edit(&input_edit);
+    let twice = dump_ts_tree(&copy.inner);
+    let trace = EditTrace {
+      input_edit: input_edit_fields(&input_edit),
+      once,
+      twice,
+    };
+    (copy.doc, trace)
+  }
+}
